@@ -530,7 +530,8 @@ impl RunState {
                     // Wrap at the top of memory, like all other address arithmetic
                     let addr = self.reg(0).wrapping_add(offset);
                     let chr_raw = self.mem(addr);
-                    for chr in [chr_raw >> 8, chr_raw & 0xFF] {
+                    // Low byte (bits [7:0]) is written first, then bits [15:8]
+                    for chr in [chr_raw & 0xFF, chr_raw >> 8] {
                         let chr_ascii = chr as u8 as char;
                         if chr_ascii == '\0' {
                             break 'string;
